@@ -6,6 +6,9 @@ cd /verif
 for d in seeded/*/; do
   id=$(basename $d)
   [ -f $d/patch.diff ] || continue
+  pf=$d/patch.diff
+  # a change whose site was touched by a later fix is kept in its original form and re-made on the current tree
+  [ -f $d/patch.current.diff ] && pf=$d/patch.current.diff
   props=$(python3 - "$d/meta.json" <<'PY'
 import json,sys,re
 m=json.load(open(sys.argv[1]))
@@ -16,8 +19,8 @@ for c in m.get("caught_by",[]):
 print(" ".join(ps))
 PY
 )
-  if ! git -C /repo apply --check $d/patch.diff 2>/dev/null; then echo "$id: patch no longer applies to /repo (the site was changed by a later fix)" >> seeded/RESULTS.txt; continue; fi
-  out=$(tools/try_seeded.sh $d/patch.diff $props 2>&1 | grep "^RESULT:")
+  if ! git -C /repo apply --check /verif/$pf 2>/dev/null; then echo "$id: patch no longer applies to /repo (the site was changed by a later fix)" >> seeded/RESULTS.txt; continue; fi
+  out=$(tools/try_seeded.sh /verif/$pf $props 2>&1 | grep "^RESULT:")
   echo "$id: $out" >> seeded/RESULTS.txt
 done
 cat seeded/RESULTS.txt
